@@ -23,7 +23,7 @@ def _c16_small(args):
     tx, ty = T(row['x']), T(row['y'])
     cxs, cys = all_pairs(tx, ty)
     out = [x_misc.observe_cmp(fx, np, [pid], tx, cxs, ty=ty, cys=cys),
-           x_misc.observe_cmp(fx, np, [pid], tx, cxs, ty=ty, cys=cys, hist=['inplace', 'view', 'elementwise', 'resign', 'intfmt'][idx % 5])]
+           x_misc.observe_cmp(fx, np, [pid], tx, cxs, ty=ty, cys=cys, hist=['inplace', 'view', 'elementwise', 'resign', 'intfmt', 'fortran', 'transposed'][idx % 7])]
     lo, hi = rng_of(tx)
     xs = list(range(lo, hi + 1))
     # against plain numbers on both sides: the other operand's values as numbers, plus values between grid points
@@ -49,7 +49,7 @@ def _c16_small(args):
     if tx == ty or idx % 7 == 0:
         out.append(x_misc.observe_numconv(fx, np, [pid], tx, xs))
         out.append(x_misc.observe_numconv(fx, np, [pid], tx, xs, byvalue=True))
-        out.append(x_misc.observe_numconv(fx, np, [pid], tx, xs, hist=['inplace', 'view', 'elementwise', 'intfmt', 'shifted', 'element'][idx % 6]))
+        out.append(x_misc.observe_numconv(fx, np, [pid], tx, xs, hist=['inplace', 'view', 'elementwise', 'intfmt', 'shifted', 'element', 'fortran', 'transposed'][idx % 8]))
     return _tag(out)
 
 
